@@ -129,6 +129,21 @@ func nillable(t types.Type) bool {
 	return false
 }
 
+// logical step budget of one ResultsOf call, counted through the verif hook in the resolver
+const stepBudget = 5_000
+
+var steps int
+var errStepBudget = fmt.Errorf("step budget exceeded")
+
+func init() {
+	gengotypes.VerifStep = func(string) {
+		steps++
+		if steps > stepBudget {
+			panic(errStepBudget)
+		}
+	}
+}
+
 func hasTP(t types.Type) bool { return mentionsTypeParam(t, map[types.Type]bool{}) }
 
 // checkFunc applies the soundness oracles to one function; returns the rendered result string.
@@ -141,11 +156,19 @@ func checkFunc(res *core.Result, p gengotypes.Package, fn *types.Func, ctx strin
 	fail := func(oracle, format string, a ...any) {
 		res.Fail(oracle, ctx+" "+oracle+" "+shortKey(name, ctx), fmt.Sprintf("%s: ", name)+fmt.Sprintf(format, a...), map[string]any{"func": name})
 	}
+	steps = 0
 	if pk, pv, stack := core.Guard(func() { results, gotN = p.ResultsOf(fn) }); pk {
+		if pv == errStepBudget {
+			fail("no-termination-within-step-budget", "ResultsOf did not return within %d resolver steps (logical step budget; the largest count observed on the unchanged tree is below %d)", stepBudget, stepBudget/50)
+			return nil, false
+		}
 		fail("panic", "ResultsOf panicked: %v\n%s", pv, clip(stack, 1500))
 		return nil, false
 	}
 	res.Inc("resultsof_calls")
+	if int64(steps) > res.Obs["max_resolver_steps_per_call"] {
+		res.Count("max_resolver_steps_per_call", int64(steps)-res.Obs["max_resolver_steps_per_call"])
+	}
 	if gotN != n {
 		fail("count", "ResultsOf reports n=%d, the function declares %d results", gotN, n)
 		return nil, false
@@ -209,6 +232,7 @@ func checkFunc(res *core.Result, p gengotypes.Package, fn *types.Func, ctx strin
 			}
 		}
 	}
+	steps = 0
 	if pk, pv, _ := core.Guard(func() { results2, _ = p.ResultsOf(fn) }); pk {
 		fail("panic", "second ResultsOf call panicked: %v", pv)
 		return results, false
